@@ -32,10 +32,13 @@ def check_fill(P, arr):
     import numpy as np
     a = np.array(arr, dtype=float)
     before = a.copy()
-    out = P.fill_negatives_with_positives(a)
     vs = []
     key = {"fn": "fill_negatives_with_positives", "case": repr(list(arr))}
     rp = {"fn": "fill", "args": [list(arr)]}
+    try:
+        out = P.fill_negatives_with_positives(a)
+    except AssertionError as e:
+        return [violation("fill_nonneg" if before.sum() >= 0 else "fill_total", key, "%s: raised AssertionError %s" % (arr, str(e)[:80]), rp)], None
     if not np.array_equal(a, before):
         vs.append(violation("fill_mutates_input", key, "input %s changed to %s" % (arr, a.tolist()), rp))
     if abs(out.sum() - before.sum()) > 1e-9:
@@ -60,11 +63,19 @@ def check_retime(P, r1, r2):
     a1 = np.array(r1, dtype=float)
     a2 = np.array(r2, dtype=float)
     z = np.zeros(len(r1))
-    with common.quiet():
-        out = P.get_second_round_kcals_with_redistributed_meat(a1.copy(), a2.copy(), z, z)
     key = {"fn": "get_second_round_kcals_with_redistributed_meat", "case": repr([list(r1), list(r2)])}
     rp = {"fn": "retime", "args": [list(r1), list(r2)]}
     vs = []
+    try:
+        with common.quiet():
+            out = P.get_second_round_kcals_with_redistributed_meat(a1.copy(), a2.copy(), z, z)
+    except AssertionError as e:
+        # the model's own post-condition failed: for legal inputs (non-negative monthly meat) re-timing must succeed or abort cleanly
+        import traceback
+        where = [l.strip() for l in traceback.format_exc().splitlines() if l.strip().startswith("File") and "/src/" in l]
+        vs.append(violation("retime_at_least_round1" if a1.sum() <= a2.sum() else "retime_skip", key,
+                            "r1=%s r2=%s: re-timing raised AssertionError %s @ %s" % (r1, r2, str(e)[:80], where[-1][-90:] if where else "?"), rp))
+        return vs, None
     if a1.sum() > a2.sum():
         if out is not None:
             vs.append(violation("retime_skip", key, "r1=%s r2=%s: less meat with feed must abort round 2" % (r1, r2), rp))
